@@ -35,7 +35,7 @@ CONF = dict(
           'lsn.fallback: the receive timestamps of the listener sockets are switched off (SOF_TIMESTAMPING_OPT_RX_FILTER; transmit stamps keep working) and the clock the listeners read is scripted, so that '
           'requests take the rxt = Now() path with receive times chosen by the harness: equal to / 1 ns around the receive time of an exchange on record (the uniqueness loop runs AT THE LISTENER and the '
           'transmit-timestamp report must be made for the moved time) or elsewhere in the past, handling time not later than / 1-2 ns after / well after it; non-trivial = a collision at the listener and an interleaved reply. '
-          'lsn.noreply: a request that the REAL SCION listener accepts but cannot answer (path it cannot reverse: path type SCION with segment lengths {0,0,0} / an unknown path type), then a request of the same client claiming its interleaved continuation (origin = the receive stamp the store holds for the client after the first request, read through the hook; receive != transmit field); observed: whether the first request was answered, the client\'s record after it, the second reply and the record after it; oracle: an exchange without a reply is not on record, the second reply is basic, the record then holds that exchange only; non-trivial = first request unanswered and second answered. The failed-write paths (IP: source port 0 needs a raw socket) are covered by the theorem only. '
+          'lsn.noreply: a request that the REAL SCION listener accepts but cannot answer (path it cannot reverse: path type SCION with segment lengths {0,0,0} / an unknown path type), then a request of the same client claiming its interleaved continuation (origin = the receive stamp the store holds for the client after the first request, read through the hook; receive != transmit field); observed: whether the first request was answered, the client\'s record after it, the second reply and the record after it; oracle: an exchange without a reply is not on record, the second reply is basic, the record then holds that exchange only; non-trivial = first request unanswered and second answered. Second family (tag ip-port0), the REAL IP listener: the unanswerable request is a raw IPv4/UDP datagram with UDP source port 0 from one of the client addresses (the listener handles it, the kernel refuses its reply to port 0: failed write), the continuation comes from a socket on the same address (the IP client id is the address); same observations, same oracle. The no-cookie paths and the SCION failed write are covered by the theorem only. '
           'tss.era: hook-level histories with the clock at the NTP era rollover 2036-02-07T06:28:16Z (requests received before, handled or reported after it), era-aware order on stamps. '
           'tss.conc: 8..32 goroutines calling the hook entry points at once on the store filled to 2^20 (each client driven by one goroutine; newcomers evicting / served without state), replies and final items '
           'compared per client with the model in program order. Thorough: lsn.race = the listeners serving 13 client identities at the same time in a -race build of the child; '
@@ -58,5 +58,5 @@ CONF = dict(
     timeout_quick=900, timeout_thorough=3000,
     extra_thorough=[dict(cmd='c06race', race=True)],
     no_floor=['lsn.slowlink', 'lsn.fallback'],
-    min_cases={'lsn.hist': 48, 'lsn.noreply': 3, 'tss.conc': 1, 'tss.era': 30, 'tss.flood': 1, 'tss.full': 1, 'tss.hist': 210, 'tss.lockdiscipline': 1},
+    min_cases={'lsn.hist': 48, 'lsn.noreply': 5, 'tss.conc': 1, 'tss.era': 30, 'tss.flood': 1, 'tss.full': 1, 'tss.hist': 210, 'tss.lockdiscipline': 1},
 )
